@@ -46,7 +46,7 @@ var c17Errors = []error{syscall.ENOSPC, syscall.EPIPE, io.ErrShortWrite}
 type c17Case struct {
 	S    vScenario `json:"s"`
 	X    string    `json:"x,omitempty"` // element argument ("" = the first basic element)
-	Cmd  int       `json:"cmd"` // index into vAPICmds; len(vAPICmds) = stats
+	Cmd  int       `json:"cmd"`         // index into vAPICmds; len(vAPICmds) = stats
 	Err  int       `json:"err"`
 	Seed uint64    `json:"seed"` // derives the sampled offsets of large reports
 }
@@ -184,9 +184,9 @@ func genC17(t *rapid.T) c17Case {
 // process level: /dev/full and a closed pipe
 
 type c17CLICase struct {
-	Cmd  int    `json:"cmd"`  // index into c10CLICmds
-	Sink string `json:"sink"` // "devfull-inprocess" | "devfull-binary" | "closed-pipe-binary"
-	Big  bool   `json:"big"`  // report larger than the stdout buffer
+	Cmd  int    `json:"cmd"`            // index into c10CLICmds
+	Sink string `json:"sink"`           // "devfull-inprocess" | "devfull-binary" | "closed-pipe-binary"
+	Big  bool   `json:"big"`            // report larger than the stdout buffer
 	Days int    `json:"days,omitempty"` // explicit number of log days (medium-sized reports: larger than the file-size limit, smaller than the buffer)
 }
 
